@@ -20,7 +20,8 @@ META = {
             "evaluated on which points), the reshaped operator equals M[operator grid -> target points] . O . M[input grid -> "
             "operator points]: the output side interpolates the operator's basis at the new points, the input side interpolates "
             "the *new* grid's basis at the operator's points (swapped construction), for the three forms, and the "
-            "interpolator is built with the given degree in x-space mode.  The 'nothing to do' shortcuts return an equal copy.",
+            "interpolator is built with the given degree in x-space mode.  The 'nothing to do' shortcuts return an equal copy."
+            " The dispatcher of a reshape is built on the grid object (bare points become a logarithmic grid).",
     "note": "That interpolation reproduces functions representable on the grids is C34; the tolerance used to call two grids equal "
             "is decided there. Here the contraction structure is decided for all operator values.",
     "technique": "partial evaluation with symbolic tensors and provenance-named interpolation matrices + polynomial identity testing over F_p",
